@@ -544,6 +544,152 @@ func c05Membership(c *lab.Ctx) {
 			}
 		}
 	}
+	c05Shared(c, cm)
+}
+
+// c05Shared: two clusters share addresses (as the clusters of two services behind one set of pods do). The health of a host is
+// kept per ADDRESS: a condition set through a host object of one cluster (that cluster's health checker) holds for the host
+// objects of the same address in the other cluster and for host objects created later by routine host pushes. Cluster Y always
+// keeps every shared address (re-pushed with fresh host objects), cluster X is replaced by arbitrary subsets; an address that was
+// flagged and never cleared must not be returned by either cluster while that cluster has an unflagged member.
+func c05Shared(c *lab.Ctx, cm types.ClusterManager) {
+	rng := c.Rand("shared")
+	n := 0
+	for _, pol := range c05Policies_ {
+		for hi := 0; hi < c.Pick(3, 20); hi++ {
+			n++
+			hrng := rng.Fork()
+			if n%c.NBatch != c.Batch {
+				continue
+			}
+			nameX, nameY := fmt.Sprintf("c05sx-%s-%d", pol, hi), fmt.Sprintf("c05sy-%s-%d", pol, hi)
+			for _, nm := range []string{nameX, nameY} {
+				if err := cm.AddOrUpdatePrimaryCluster(v2.Cluster{Name: nm, LbType: v2.LbType(pol)}); err != nil {
+					c.Inconclusive("add cluster failed")
+				}
+			}
+			addr := func(i int) string { return fmt.Sprintf("10.6.%d.%d:80", n%250, 1+i) }
+			mk := func(i int) v2.Host { return v2.Host{HostConfig: v2.HostConfig{Address: addr(i), Weight: uint32(1 + i%3)}} }
+			const S = 5
+			all := func() []v2.Host {
+				var hs []v2.Host
+				for i := 0; i < S; i++ {
+					hs = append(hs, mk(i))
+				}
+				return hs
+			}
+			_ = cm.UpdateClusterHosts(nameY, all())
+			_ = cm.UpdateClusterHosts(nameX, all())
+			inX := map[string]bool{}
+			for i := 0; i < S; i++ {
+				inX[addr(i)] = true
+			}
+			flagged := map[string]bool{}
+			var ops []string
+			hostOf := func(cluster, a string) types.Host {
+				snap := cm.GetClusterSnapshot(context.Background(), cluster)
+				var out types.Host
+				if snap != nil {
+					snap.HostSet().Range(func(h types.Host) bool {
+						if h.AddressString() == a {
+							out = h
+							return false
+						}
+						return true
+					})
+				}
+				return out
+			}
+			for si := 0; si < 24; si++ {
+				desc := ""
+				switch hrng.Intn(6) {
+				case 0, 1: // a health checker of X or Y marks an address failed
+					a := addr(hrng.Intn(S))
+					cl := hrng.PickStr(nameX, nameY)
+					if h := hostOf(cl, a); h != nil && len(flagged) < S-1 {
+						h.SetHealthFlag(api.FAILED_ACTIVE_HC)
+						flagged[a] = true
+						desc = fmt.Sprintf("flag(%s via %s)", a, cl)
+					} else {
+						desc = "flag(skipped)"
+					}
+				case 2: // ... or healthy again
+					a := addr(hrng.Intn(S))
+					if h := hostOf(nameY, a); h != nil {
+						h.ClearHealthFlag(api.FAILED_ACTIVE_HC)
+						delete(flagged, a)
+						desc = fmt.Sprintf("clear(%s)", a)
+					}
+				case 3, 4: // X is replaced by a subset of the shared addresses
+					var hs []v2.Host
+					inX = map[string]bool{}
+					for _, i := range hrng.Perm(S)[:hrng.Intn(S+1)] {
+						hs = append(hs, mk(i))
+						inX[addr(i)] = true
+					}
+					_ = cm.UpdateClusterHosts(nameX, hs)
+					desc = fmt.Sprintf("replace-X(%d hosts)", len(hs))
+				default: // a routine push of Y's (unchanged) host list: new host objects for every address
+					_ = cm.UpdateClusterHosts(nameY, all())
+					desc = "repush-Y"
+				}
+				ops = append(ops, desc)
+				c.Case("c05 shared %s/%s step=%d %s", nameX, nameY, si, desc)
+				c.Eval(1)
+				for _, cl := range []string{nameX, nameY} {
+					members := map[string]bool{}
+					if cl == nameY {
+						for i := 0; i < S; i++ {
+							members[addr(i)] = true
+						}
+					} else {
+						members = inX
+					}
+					healthy := 0
+					for a := range members {
+						if !flagged[a] {
+							healthy++
+						}
+					}
+					snap := cm.GetClusterSnapshot(context.Background(), cl)
+					if snap == nil {
+						continue
+					}
+					ctx := newLbCtx()
+					hist := ops
+					if len(hist) > 10 {
+						hist = hist[len(hist)-10:]
+					}
+					wit := map[string]interface{}{"policy": string(pol), "last_operations": hist, "flagged_and_never_cleared": sortedKeys(flagged), "members": sortedKeys(members), "cluster": cl}
+					for k := 0; k < 30; k++ {
+						ctx.route = newHashRoute(uint64(k)*2654435761 + uint64(si))
+						h := snap.LoadBalancer().ChooseHost(ctx)
+						if h == nil {
+							if healthy > 0 {
+								c.Violation("nil-only-when-none-healthy", "C05/shared-address/nil-while-healthy-exists/policy="+string(pol),
+									fmt.Sprintf("policy %s, two clusters sharing addresses, after %s: no host from %s although %d unflagged members exist", pol, desc, cl, healthy), wit)
+								break
+							}
+							continue
+						}
+						if flagged[h.AddressString()] && healthy > 0 {
+							c.Violation("healthy-host-when-one-exists", "C05/shared-address/failed-host-returned/policy="+string(pol),
+								fmt.Sprintf("policy %s, two clusters sharing addresses, after %s: %s returned %s, which was marked failed and never cleared, although %d healthy members exist", pol, desc, cl, h.AddressString(), healthy), wit)
+							break
+						}
+					}
+				}
+				c.Distinct(fmt.Sprintf("shared|%s|%s|%d|%d", pol, strings.SplitN(desc, "(", 2)[0], len(flagged), len(inX)))
+			}
+			// leave no condition behind (the store is process-wide)
+			for i := 0; i < S; i++ {
+				if h := hostOf(nameY, addr(i)); h != nil {
+					h.ClearHealthFlag(api.FAILED_ACTIVE_HC)
+				}
+			}
+			c.Count("shared-address-histories", 1)
+		}
+	}
 }
 
 func sortedKeys(m map[string]bool) []string {
